@@ -1685,7 +1685,14 @@ def check_unit(name: str, variant: Optional[str] = None, rlimit: Optional[float]
             if ch.origin != "repo":
                 continue
             # functions with a contract of their own: vstd's (concrete types) and the unit's `assume_specification`s
-            precise = vstd_precise_names() | set(re.findall(r"assume_specification[^\[]*\[[^\]]*?::\s*([A-Za-z_][A-Za-z0-9_]*)\s*\]", text))
+            precise = vstd_precise_names() | set(re.findall(r"assume_specification.*?::\s*([A-Za-z_][A-Za-z0-9_]*)\s*\]\s*\(", text))
+            # stand-ins declared in the unit's (trusted) prelude WITH an `ensures` clause carry a contract by construction
+            for pch in unit.chunks:
+                if pch.origin == "prelude":
+                    for part in re.split(r"\bfn\s+", pch.text)[1:]:
+                        mm = re.match(r"([A-Za-z_][A-Za-z0-9_]*)", part)
+                        if mm and "ensures" in part.split("{", 1)[0]:
+                            precise.add(mm.group(1))
             # `matches!(e, pat)` is sugar for a `match`: nothing about it is left to a library contract
             new = sorted(x for x in (callee_vocabulary(ch.text) - locked) if x[1] not in precise and x != ("!", "matches"))
             if not new:
